@@ -224,6 +224,7 @@ def clone_class(cls):
 CONTRACTS: list = []
 LEMMAS: list = []
 AUDITS: list = []
+NATIVES: list = []
 
 
 def contract(fn, name, call, vars=None, requires=(), ensures=(), raises=None, ensures_raise=(), instances=None,  # noqa: A002
@@ -248,3 +249,18 @@ def lemma(name, vars=None, premises=(), conclusion=(), note="", instances=None, 
 def audit(name, fn, note=""):
     """A structural obligation computed from the ASTs by a python function fn(ctx) -> list of (obligation, ok, detail)."""
     AUDITS.append(dict(name=name, fn=fn, note=note))
+
+
+
+def native(name, script, bound, functions=(), args=(), note="", tier="quick", timeout=600):
+    """A BOUNDED stand-in: `script` (path relative to /verif) is run under /venv/bin/python on the real code of /repo and must
+    print a last line of JSON {"ok": bool, "cases": int, "failures": [{"what": str, "input": ...}, ...]}.
+    Reported under `bounded_checks` with its stated bound - never counted as a proved obligation."""
+    NATIVES.append(dict(name=name, script=script, bound=bound, functions=list(functions), args=list(args), note=note, tier=tier,
+                        timeout=timeout))
+
+
+def thorough():
+    """True when the check runs in the thorough tier (VERIF_TIER / --tier thorough): sidecars use it to widen enumerated shapes."""
+    import os
+    return os.environ.get("VERIF_TIER", "quick") == "thorough"
